@@ -297,10 +297,13 @@ class MCNP_Problem:
                             ParsingError,
                             UnknownElement,
                             UnsupportedFeature,
+                            # an entry of the wrong type (mode n 1.2)
+                            TypeError,
                         ) as e:
                             if check_input:
                                 warnings.warn(
-                                    f"{type(e).__name__}: {e.message}", stacklevel=2
+                                    f"{type(e).__name__}: {getattr(e, 'message', e)}",
+                                    stacklevel=2,
                                 )
                                 continue
                             else:
